@@ -548,7 +548,8 @@ fn pool_new_round(job: &mut Job, u: &Universe) {
 
 fn migration_stage(cfg: &RunCfg, agg: &Mutex<Agg>) {
     use crate::codec;
-    if !cfg.stage_enabled("migration") || cfg.only_case.is_some() {
+    // a replay (`--case`) runs this stage only when it is the one asked for
+    if !cfg.stage_enabled("migration") || (cfg.only_case.is_some() && cfg.only_stage.as_deref() != Some("migration")) {
         return;
     }
     let threads = 6usize;
